@@ -167,6 +167,12 @@ class Fn:
                 _fail(n, "unknown name %s" % n.id)
             return (env[n.id][0], env[n.id][1])
         if isinstance(n, ast.Attribute):
+            # [C06] spec option "elementwise": numpy-vectorised scalar kernels read one element at a time; `np.nan` is
+            # the carrier's NaN.  Off by default: no effect on other specs.
+            if self.spec.get("elementwise") and n.attr == "nan" and isinstance(n.value, ast.Name) \
+                    and n.value.id == "np" and "np" not in env:
+                self.uses_T = True
+                return ("(nan OP)", 'F')
             base, bt = self.expr(n.value, env)
             if bt == 'S' and n.attr in ('start', 'stop'):
                 return ("(s%s %s)" % (n.attr, base), 'Z')
@@ -180,6 +186,12 @@ class Fn:
             _fail(n, "attribute .%s on %s" % (n.attr, bt))
         if isinstance(n, ast.Subscript):
             base, bt = self.expr(n.value, env)
+            # [C06] spec option "elementwise": `pts[:, k]` on an (n, m) array of points, seen for one row, is component k
+            if self.spec.get("elementwise") and isinstance(n.slice, ast.Tuple) and len(n.slice.elts) == 2 \
+                    and isinstance(n.slice.elts[0], ast.Slice) and n.slice.elts[0].lower is None \
+                    and n.slice.elts[0].upper is None and n.slice.elts[0].step is None \
+                    and isinstance(n.slice.elts[1], ast.Constant) and isinstance(n.slice.elts[1].value, int):
+                n = ast.copy_location(ast.Subscript(value=n.value, slice=n.slice.elts[1], ctx=n.ctx), n)
             if isinstance(bt, tuple) and bt[0] == 'T' and isinstance(n.slice, ast.Constant) \
                     and isinstance(n.slice.value, int):
                 i = n.slice.value
@@ -617,7 +629,7 @@ class Fn:
                 raise Untranslatable("parameter %s has no declared type" % p)
             t = spec["params"][p]
             if isinstance(t, list):
-                t = tuple(t)
+                t = _tup(t)      # [C06] nested tuple types (a tuple of points); identical to tuple(t) for flat lists
             env[p] = (p, t)
             if t == 'F' or (isinstance(t, tuple) and 'F' in t):
                 self.uses_T = True
